@@ -196,6 +196,34 @@ class CounterDict(dict):
         return items[:n] if n is not None else items
 
 
+def it_groupby(eng, args, kwargs, node):
+    """itertools.groupby: runs of consecutive elements with equal keys (the equalities between neighbouring keys are decided on
+    the path); every group is an eager list here (CPython invalidates a group when the next one is requested - code that keeps
+    groups beyond that is outside this model)"""
+    items = eng.iterate_concrete(args[0])
+    keyf = args[1] if len(args) > 1 else kwargs.get('key')
+    out, cur_key, cur = [], None, None
+    for x in items:
+        k = eng.call(keyf, [x], {}, node) if keyf is not None else x
+        same = False
+        if cur is not None:
+            e = eng.equals(cur_key, k)
+            same = e is True or (e is not False and eng.branch(e))
+        if same:
+            cur.append(x)
+        else:
+            cur_key, cur = k, [x]
+            out.append((k, GenResult(cur)))
+    return GenResult(out)
+
+
+def os_system(eng, args, kwargs, node):
+    """os.system(<command>): an external program runs; its exit status is arbitrary, it changes nothing the model tracks"""
+    from .engine import fresh, INT
+    st = fresh(INT, 'exit_status')
+    return st
+
+
 def col_defaultdict(eng, args, kwargs, node):
     return DefaultDict(args[0] if args else None)
 
@@ -287,7 +315,7 @@ TABLE = {
     'collections.namedtuple': col_namedtuple,
     'numpy.ceil': np_ceil, 'numpy.floor': np_floor, 'math.ceil': math_ceil, 'math.floor': math_floor,
     'itertools.chain': it_chain, 'itertools.chain.from_iterable': lambda e, a, k, n: it_chain(e, list(e.iterate_concrete(a[0])), {}, n),
-    'itertools.product': it_product, 'itertools.combinations': it_combinations,
+    'itertools.product': it_product, 'itertools.groupby': it_groupby, 'os.system': os_system, 'itertools.combinations': it_combinations,
     'more_itertools.windowed': mi_windowed,
     'collections.defaultdict': col_defaultdict, 'collections.Counter': col_counter,
 }
